@@ -673,7 +673,7 @@ func LoadContracts(repo string, libDir string, mirrorDir string, modPath string)
 		if info.IsDir() && (info.Name() == ".git" || info.Name() == "vendor") {
 			return filepath.SkipDir
 		}
-		if !info.IsDir() && info.Name() == "zz_verif_contracts.go" {
+		if !info.IsDir() && strings.HasPrefix(info.Name(), "zz_verif_") && strings.HasSuffix(info.Name(), ".go") && !strings.HasSuffix(info.Name(), "_test.go") {
 			files = append(files, p)
 		}
 		return nil
